@@ -51,7 +51,7 @@ prop('C15', harness='itermon', floor=5000, batches={'quick': 4, 'thorough': 16},
      assumptions=['every leaf is used once per evaluation and rebuilt for the next (the combinators are destructive)',
                   'callbacks are pure functions of their arguments; keys (>= 1000) never equal values (< 997)'])
 
-prop('C16', harness='ductmon', floor=2000, batches={'quick': 4, 'thorough': 16},
+prop('C16', harness='ductmon', floor=2000, batches={'quick': 4, 'thorough': 16}, modes={'quick': ['plain', 'race'], 'thorough': ['plain', 'race']},
      assumptions=['each intermediate morphism value is used once (the property\'s precondition: combinators mutate the shared AST)',
                   'expected type names are duct.TypeOf of the instantiated type parameters, as the property states'])
 
